@@ -4,6 +4,7 @@
 -/
 import EG.Lemmas.AdaptersExact
 namespace EG
+open Tgt
 
 /-- The composed transformation of a stack over a root with box `B`: accumulated clip region (in
 root coordinates), total shift, composed colour map. -/
@@ -102,7 +103,7 @@ theorem stack_run_default (B : Rect) (s : Stack) (calls : List Call) (h : ∀ c 
   exact stack_run_native B s calls h q
 
 /-- A point is touched by a write list iff some write names it. -/
-theorem lastWrite_eq_none_iff (ws : Writes) (p : Pt) : lastWrite ws p = none ↔ ∀ w ∈ ws, w.1 ≠ p := by
+theorem Tgt.lastWrite_eq_none_iff (ws : Writes) (p : Pt) : lastWrite ws p = none ↔ ∀ w ∈ ws, w.1 ≠ p := by
   induction ws with
   | nil => simp [lastWrite_nil]
   | cons w ws ih =>
@@ -121,5 +122,127 @@ theorem stack_inside (B : Rect) (s : Stack) (c : Call) (h : stackOk B s c) :
   · exact hG
   · rw [if_neg hG, lastWrite_eq_none_iff] at hs
     exact absurd rfl (hs w hw)
+
+end EG
+
+namespace EG
+open Tgt
+
+/-- The meaning of a call depends on the target's box only through `clear`, and there only
+through membership of the point. -/
+theorem Call.sem_box_irrelevant (T T' : Rect) (c : Call) (q : Pt) (hT : T.Ok) (hT' : T'.Ok)
+    (h : T.contains q = T'.contains q) : c.sem T q = c.sem T' q := by
+  cases c with
+  | clear col => rw [Call.sem_clear _ hT, Call.sem_clear _ hT', h]
+  | _ => rfl
+
+/-- `runNative` point-wise: inside the box the direct meaning of the history, nothing outside. -/
+theorem runNative_eq_runDirect (B : Rect) (calls : List Call) (q : Pt) :
+    runNative B calls q = if B.contains q = true then runDirect B calls q else none := by
+  unfold runNative runDirect
+  rw [PMap.empty_apply]
+  by_cases hB : B.contains q = true
+  · rw [if_pos hB]
+    have := lastWrite_flatMap_congr calls (Call.writesNative B) (Call.lowerNative B) (fun o => o)
+      (by intro x y; rfl) rfl q q
+      (by intro c _; unfold Call.writesNative; rw [lastWrite_clipWrites, if_pos hB])
+    exact this
+  · rw [if_neg hB]
+    have := lastWrite_flatMap_congr calls (Call.writesNative B) (Call.lowerNative B) (fun _ => none)
+      (by intro x y; rfl) rfl q q
+      (by intro c _; unfold Call.writesNative; rw [lastWrite_clipWrites, if_neg hB])
+    exact this
+
+theorem runDirect_box_irrelevant (T T' : Rect) (calls : List Call) (q : Pt) (hT : T.Ok) (hT' : T'.Ok)
+    (h : T.contains q = T'.contains q) : runDirect T calls q = runDirect T' calls q := by
+  unfold runDirect
+  exact lastWrite_flatMap_congr calls (Call.lowerNative T) (Call.lowerNative T') (fun o => o)
+    (by intro x y; rfl) rfl q q (by intro c _; exact Call.sem_box_irrelevant T T' c q hT hT' h)
+
+end EG
+
+namespace EG
+open Tgt
+
+/-! ### Nestings of nestings -/
+
+theorem Pt.zero_add' (a : Pt) : Pt.zero + a = a := by rw [Pt.ext_iff']; simp [Pt.zero]
+theorem Pt.add_assoc' (a b c : Pt) : a + b + c = a + (b + c) := by
+  rw [Pt.ext_iff']; simp only [Pt.add_x, Pt.add_y]; omega
+
+theorem Xf.ext' {x y : Xf} (hG : ∀ q, x.G q = y.G q) (hd : x.d = y.d) (hf : ∀ c, x.f c = y.f c) : x = y := by
+  cases x; cases y
+  simp only at hG hd hf
+  simp only [Xf.mk.injEq]
+  exact ⟨funext hG, hd, funext hf⟩
+
+theorem Xf.id_comp (x : Xf) : Xf.id.comp x = x := by
+  apply Xf.ext'
+  · intro q; simp [Xf.comp, Xf.id, Pt.sub_zero]
+  · simp [Xf.comp, Xf.id, Pt.zero_add']
+  · intro c; rfl
+
+theorem Xf.comp_assoc (a b c : Xf) : (a.comp b).comp c = a.comp (b.comp c) := by
+  apply Xf.ext'
+  · intro q; simp only [Xf.comp, Pt.sub_add, Bool.and_assoc]
+  · simp only [Xf.comp, Pt.add_assoc']
+  · intro col; rfl
+
+theorem stackBox_append (B : Rect) (s1 s2 : Stack) :
+    stackBox B (s1 ++ s2) = stackBox (stackBox B s1) s2 := by
+  induction s1 generalizing B with
+  | nil => rfl
+  | cons a rest ih => simp only [List.cons_append, stackBox]; exact ih (a.bbox B)
+
+theorem lowerStack_append (B : Rect) (s1 s2 : Stack) (c : Call) :
+    lowerStack B (s1 ++ s2) c = lowerStack B s1 (lowerStack (stackBox B s1) s2 c) := by
+  induction s1 generalizing B with
+  | nil => rfl
+  | cons a rest ih => simp only [List.cons_append, lowerStack, stackBox]; rw [ih (a.bbox B)]
+
+theorem stackXf_append (B : Rect) (s1 s2 : Stack) :
+    stackXf B (s1 ++ s2) = (stackXf B s1).comp (stackXf (stackBox B s1) s2) := by
+  induction s1 generalizing B with
+  | nil => simp only [List.nil_append, stackXf, stackBox, Xf.id_comp]
+  | cons a rest ih =>
+    simp only [List.cons_append, stackXf, stackBox]
+    rw [ih (a.bbox B), Xf.comp_assoc]
+
+end EG
+
+namespace EG
+open Tgt
+
+/-- Adapters that do not move coordinates. -/
+def Adapter.noShift : Adapter → Bool
+  | .clipped _ => true
+  | .converted _ => true
+  | _ => false
+
+/-- The range guard of the call with the box replaced (only `clear` looks at the box). -/
+theorem Call.ok_box (T T' : Rect) (c : Call) (h : c.Ok T) (hT' : T'.Ok) : c.Ok T' := by
+  cases c with
+  | clear col => exact hT'
+  | _ => exact h
+
+/-- Nestings of clipped and colour-converted targets need no guard beyond the user's inputs:
+the root's box and the call's area are empty or in `i32` range. -/
+theorem stackOk_of_noShift (B : Rect) (s : Stack) (c : Call) (hs : ∀ a ∈ s, a.noShift = true)
+    (hB : B.Ok) (hc : c.Ok B) : stackOk B s c := by
+  induction s generalizing B with
+  | nil => exact hc
+  | cons a rest ih =>
+    have ha := hs a List.mem_cons_self
+    have hrest : ∀ b ∈ rest, b.noShift = true := fun b hb => hs b (List.mem_cons_of_mem _ hb)
+    cases a with
+    | clipped r =>
+      have hB' : ((Adapter.clipped r).bbox B).Ok := Rect.ok_intersection_right r B hB
+      have h1 := ih _ hrest hB' (Call.ok_box B _ c hc hB')
+      exact ⟨h1, Adapter.clipped_lower_ok _ B _ (stackOk_lowered _ _ _ h1)⟩
+    | converted f =>
+      have h1 := ih ((Adapter.converted f).bbox B) hrest hB hc
+      exact ⟨h1, Adapter.converted_ok f B _ (stackOk_lowered _ _ _ h1)⟩
+    | cropped r => cases ha
+    | translated d => cases ha
 
 end EG
